@@ -401,6 +401,15 @@ pub fn run(sh: &mut Shard) {
     }
     let rng = Rng::new(sh.args.shard_seed());
     let every = if sh.args.thorough() { 1 } else { 3 };
+    if sh.args.shard == 0 {
+        // a fixed project with inheritance: members of a base function block used bare in a derived one
+        let files = vec![
+            "FUNCTION_BLOCK Base\nVAR speed : DINT; limit : DINT := DINT#10; END_VAR\nspeed := speed + DINT#1;\nEND_FUNCTION_BLOCK\n\nFUNCTION_BLOCK Derived EXTENDS Base\nVAR_OUTPUT outv : DINT; END_VAR\nspeed := speed + DINT#2;\nIF speed > limit THEN\n  speed := DINT#0;\nEND_IF;\noutv := speed;\nEND_FUNCTION_BLOCK\n".to_string(),
+            "PROGRAM Main\nVAR d : Derived; r : DINT; END_VAR\nVAR_EXTERNAL gtop : DINT; END_VAR\nd();\nr := d.outv;\ngtop := gtop + r;\nEND_PROGRAM\n\nCONFIGURATION Conf\nVAR_GLOBAL gtop : DINT; top : DINT := DINT#100; END_VAR\nPROGRAM P1 : Main;\nEND_CONFIGURATION\n".to_string(),
+        ];
+        let mut g = rng.fork(999_999);
+        run_project(sh, &files, &mut g, 1, "inherit");
+    }
     let mut i = 0u64;
     while sh.time_left() {
         i += 1;
